@@ -283,6 +283,22 @@ def run(pm, ctx):
     ctx.rule("C03-j", "the direction handed to the optimiser is -(chain rule of the GEMINI gradient through the model's own forward function) plus "
              "the gradient of the model's penalty: symbolic differentiation of _infer compared, as canonical forms, with _compute_grads / _update_weights", floor=17)
     chain_rule(pm, ctx)
+    ctx.rule("C03-k", "Douglas: the direction of the leaf scores and the gradient on each binning's logits are the chain rule through the two softmax layers "
+             "(local term comparison with declared inputs; the Kronecker / cumsum / sort steps are judged by C03-i and the structural rules)", floor=2)
+    from ..e8_models import douglas_local
+    from ..e8_index import Unsupported as _U8
+    du = pm.unit("gemclus.tree.douglas")
+    try:
+        res = douglas_local(pm)
+    except _U8 as e:
+        res = [("Douglas: local chain rules", "undecided", f"outside the translated subset: {e}")]
+    for site, status, detail in res:
+        if status == "exact":
+            ctx.ok("C03-k", site)
+        elif status == "undecided":
+            ctx.unrecognised("C03-k", site, detail)
+        else:
+            ctx.violation("C03-k", du.relpath, "Douglas._compute_grads", site, f"{site}: {detail}", line=pm.classes["Douglas"].methods["_compute_grads"].lineno, site=site)
     concrete = pm.concrete_estimators()
     # representative concrete estimator per _compute_grads definition
     def any_concrete(ci):
@@ -834,4 +850,16 @@ def controls(pm, tier):
     tmut(MLP_, "        b1_grad = backprop_grad.sum(0, keepdims=True)", "        b1_grad = backprop_grad.mean(0, keepdims=True)", "hidden bias averaged instead of summed")
     tmut(SMLP, "        W_skip_grad = X.T @ tau_hat_grad", "        W_skip_grad = X.T @ backprop_grad @ self.W1_.T @ X.T @ tau_hat_grad * 0 + X.T @ y_pred", "skip connection direction from the predictions")
     tmut(LIN, "        gradients[0] += self.reg * 2 * self.W_", "        gradients[0] += self.reg * self.W_", "RIM penalty gradient halved")
+
+    def kmut(find, repl, name):
+        def apply(pm_):
+            u = pm_.unit("gemclus.tree.douglas")
+            if find not in u.src:
+                return None
+            return {u.relpath: u.src.replace(find, repl, 1)}
+        out.append({"name": name, "rule": "C03-k", "apply": apply})
+    kmut("            bin_grad /= self.temperature\n", "", "Douglas: temperature dropped from the bin gradient")
+    kmut("        leaf_score_backprop = self._leaf.T @ y_pred_grad", "        leaf_score_backprop = self._leaf.T @ gradient", "Douglas: leaf scores skip the softmax Jacobian")
+    kmut("            bin_grad = weighted_grad - self._all_binnings[i] * weighted_grad.sum(1, keepdims=True)", "            bin_grad = weighted_grad - self._all_binnings[i] * weighted_grad.mean(1, keepdims=True)",
+         "Douglas: bin softmax backprop with a mean")
     return out
